@@ -546,12 +546,30 @@ Qed.
 
 Definition nlen {A} (l : list A) : N := N.of_nat (length l).
 
-(** Vector<u8>: scripts, Orchard proofs, Equihash solutions.  The length is compared with what
-    is left before anything is split off, so absurd lengths cost nothing. *)
+(** Vector<u8>: scripts, Orchard proofs, Equihash solutions. *)
+(** [take] with a binary counter: structural on the bytes, so an absurd length costs nothing and
+    no length of the rest is ever computed *)
+Fixpoint takeN (bs : bytes) (n : N) : option (bytes * bytes) :=
+  if n =? 0 then Some ([], bs)
+  else match bs with
+       | [] => None
+       | b :: r => match takeN r (N.pred n) with
+                   | Some (h, t) => Some (b :: h, t)
+                   | None => None
+                   end
+       end.
+
+Lemma takeN_take : forall bs n, takeN bs n = take (N.to_nat n) bs.
+Proof.
+  induction bs as [|b r IH]; intros n; cbn [takeN]; destruct (N.eqb_spec n 0) as [->|Hn]; try reflexivity.
+  - destruct (N.to_nat n) eqn:E; [lia | reflexivity].
+  - rewrite IH. replace (N.to_nat n) with (S (N.to_nat (N.pred n))) by lia. reflexivity.
+Qed.
+
 Definition c_bytevec (mx : N) : codec bytes :=
   mkCodec (fun b => enc (c_compact mx) (nlen b) ++ b)
           (fun bs => match dec (c_compact mx) bs with
-                     | Some (n, r) => if n <=? nlen r then take (N.to_nat n) r else None
+                     | Some (n, r) => takeN r n
                      | None => None
                      end)
           (fun b => wf (c_compact mx) (nlen b)).
@@ -564,11 +582,10 @@ Proof.
   split; cbn [c_bytevec enc dec wf].
   - intros b r H. rewrite <- app_assoc.
     rewrite (rt _ (c_compact_ok mx)) by exact H.
-    rewrite nlen_app. rewrite (proj2 (N.leb_le _ _)) by lia.
-    unfold nlen. rewrite Nat2N.id. apply take_app.
+    rewrite takeN_take. unfold nlen. rewrite Nat2N.id. apply take_app.
   - intros bs b r H.
     destruct (dec (c_compact mx) bs) as [[n r1]|] eqn:E; [|discriminate].
-    destruct (n <=? nlen r1) eqn:L; [|discriminate].
+    rewrite takeN_take in H.
     apply take_some in H as [-> Hl]. apply (canon _ (c_compact_ok mx)) in E as [-> W].
     assert (nlen b = n) as -> by (unfold nlen; rewrite Hl; apply N2Nat.id).
     rewrite <- app_assoc. auto.
